@@ -35,6 +35,7 @@ THEOREMS = [
     "Qentem.Props.C13.tree_assign_dst_eq_src",
     "Qentem.Props.C13.tree_move_dst_eq_src",
     "Qentem.Props.C13.tree_get_stored",
+    "Qentem.Props.C13.tree_insert_from_stored",
     "Qentem.HashTree.getAt_setAt_self",
     "Qentem.HashTree.getAt_setAt_incomparable",
     "Qentem.HashTable.sortSeg_of_checked",
@@ -121,8 +122,9 @@ def ks(k):
 
 
 class Gen:
-    def __init__(self, rng, keys, kind):
-        self.rng, self.keys, self.kind = rng, keys, kind
+    def __init__(self, rng, keys, kind, alias=True):
+        # alias: also generate calls whose argument is an element of the same table (IV IK IKV GK RK NK NT)
+        self.rng, self.keys, self.kind, self.alias = rng, keys, kind, alias
         self.next_id = 1
 
     def key(self):
@@ -151,6 +153,17 @@ class Gen:
         x = r.random()
         if x < insert_bias:
             return "I/%s/%d" % (ks(self.key()), self.val())
+        if self.alias and r.random() < 0.12:
+            c = r.choice(["IV", "IV", "IV", "IK", "IKV", "GK", "RK", "NK", "NT"])
+            if c == "IV":
+                return "IV/%s/%s" % (ks(self.key()), ks(self.key()))
+            if c == "IK":
+                return "IK/%d/%d" % (self.small(), self.val())
+            if c == "IKV":
+                return "IKV/%d/%d" % (self.small(), self.small())
+            if c in ("GK", "RK"):
+                return "%s/%d" % (c, self.small())
+            return "%s/%d/%s" % (c, self.small(), ks(self.key()))
         c = r.choices(["A", "G", "L", "X", "R", "D", "N", "S", "Y", "M", "P", "Q", "V", "Z", "E", "C", "K", "T", "I", "W"],
                       weights=[8, 6, 10, 5, 12, 6, 6, 3, 3, 2, 3, 3, 1, 3, 3, 3, 1, 1, 5, 2])[0]
         if self.kind == "L" and c in ("A", "G"):
@@ -173,12 +186,16 @@ class Gen:
         return ";".join(self.op(insert_bias) for _ in range(n))
 
 
-def exhaustive_ops(kind):
+def exhaustive_ops(kind, alias=False):
     a, b, aa = "97", "98", "97,97"
     ops = ["I/%s/1" % a, "I/%s/2" % b, "I/%s/3" % aa, "R/%s" % a, "R/%s" % b, "D/0", "D/1", "L/%s" % a, "X/1",
            "C", "S/1", "N/%s/%s" % (a, b), "N/%s/%s" % (a, "99"), "Y", "E/1", "Z/1", "P/%s=7&%s=8/%s" % (b, "99", b), "W"]
     if kind != "L":
         ops += ["G/%s" % a, "A/%s/9" % b]
+    if alias:
+        ops += ["IK/0/6", "RK/1", "NK/0/99", "NT/0/%s" % b]
+        if kind != "L":
+            ops += ["IV/%s/%s" % (aa, a), "IV/%s/%s" % (b, a), "IKV/0/1", "GK/0"]
     return ops
 
 
@@ -199,16 +216,27 @@ def gen_lines(ctx):
     # exhaustive short sequences over a small operation alphabet (index arithmetic, chain surgery)
     depth = 4 if ctx.thorough else 3
     for kind in ("A", "L"):
-        ops = exhaustive_ops(kind)
+        ops = exhaustive_ops(kind, alias=True)
         for n in range(1, depth + 1):
             for t in itertools.product(ops, repeat=n):
                 lines.append("htrun %s %s" % (kind, ";".join(t)))
     if not ctx.thorough:
-        ops = exhaustive_ops("B")
+        ops = exhaustive_ops("B", alias=True)
         for t in itertools.product(ops, repeat=2):
             lines.append("htrun B %s" % ";".join(t))
         for _ in range(3000):   # a sample of the length-4 domain
             lines.append("htrun A %s" % ";".join(rng.choice(ops) for _ in range(4)))
+    # every fill level 1..17 (capacities 2,4,8,16: exactly full at 2,4,8,16), then a call whose argument is an
+    # element of the same table - with a new key (the call grows a full table) and with an existing key
+    for kind in ("A", "B", "L"):
+        for n in range(1, 18):
+            fill = ";".join("I/%d/%d" % (100 + j, j + 1) for j in range(n))
+            tails = ["IK/0/90;L/100", "IK/%d/91" % (n - 1), "RK/0;IK/1/92", "NK/0/99;L/99", "NT/%d/99" % (n - 1)]
+            if kind != "L":
+                tails += ["IV/99/100;L/99;L/100", "IV/99/%d;L/99" % (100 + n - 1), "IV/100/%d;L/100" % (100 + n - 1),
+                          "IKV/0/%d;L/100" % (n - 1), "IV/100/100;L/100", "GK/%d" % (n - 1), "R/100;IV/100/101;L/100"]
+            for t in tails:
+                lines.append("htrun %s %s;%s" % (kind, fill, t))
     n_exh = len(lines) - n_corpus
     coll = colliding_alphabet()
     per = 450 if not ctx.thorough else 9000
@@ -259,15 +287,15 @@ def property_diff(line, impl_view, spec_view_):
     """First step at which the real table and the Lean slot specification differ in what the property
     is about.  Capacity and the moment tombstones are dropped are not part of the property; once they
     differ, slot numbers are no longer comparable, so the comparison stops at the next operation that
-    takes or returns a slot number (X, D, Z)."""
+    takes or returns a slot number (X, D, Z and the calls addressed by slot: IK IKV GK RK NK NT)."""
     ops = line.split(" ")[2].split(";")
     a, b = impl_view.split("|"), spec_view_.split("|")
     if len(a) != len(b):
         return min(len(a), len(b)), "record-count"
     diverged = False
     for k in range(len(a)):
-        c = ops[k][0] if k < len(ops) else "?"
-        if diverged and c in "XDZ":
+        c = ops[k].split("/")[0] if k < len(ops) else "?"
+        if diverged and c in ("X", "D", "Z", "IK", "IKV", "GK", "RK", "NK", "NT"):
             return None, None
         if c == "X":
             if not diverged and a[k].split("#")[0] != b[k].split("#")[0]:
